@@ -22,6 +22,7 @@ func init() {
 			"R16.2 the whole configuration with default options: the hashed value is the *config.Config that config.Load returned for the very bytes being applied, format V2, nil options; " +
 			"R16.3 external labels ignored and nothing else: between config.Load and the hash the parsed configuration is written only at GlobalConfig.ExternalLabels (blanked before, restored after) and is passed to no other call; the hash precedes the reload callbacks; " +
 			"R16.4 one implementation: ConfigInfo.ConfigHash is written only from that hash (and the empty default), and the raw bytes reach the hashing function unmodified from the file reader and from the sidecar's config handler; " +
+			"R16.5 the reported hash: the sidecar's RuntimeInfo.ConfigHash is ConfigInfo().ConfigHash of its configuration manager, read in the reporting function itself, and ConfigInfo returns the manager's current configuration - so the report does not depend on the way the configuration was loaded; " +
 			"R16.6 in sync ⇔ equal hashes is C08 R8.1. " +
 			"Not decided: sensitivity to each scalar (follows from coverage), collisions.",
 		Assumptions: []string{"go/types and go/ssa are correct", "hashstructure v2.0.1 traversal rules as read from the pinned source (visit(): exported fields, tags, time.Time, Hashable/Includable)"}})
@@ -201,6 +202,8 @@ func runC16(p *engine.Prog, r *engine.Report) {
 	r.Min("R16.2-whole-config", 1)
 	r.Min("R16.3-external-labels-only", 1)
 	r.Min("R16.4-one-implementation", 2)
+	r.Min("R16.5-reported-hash", 2)
+	checkReportedHash(p, r)
 
 	// ---- R16.1
 	w := &hashWalk{p: p, seen: map[string]bool{}, blinds: map[string]*blind{}, ifaces: map[string]int{}}
@@ -502,6 +505,62 @@ func runC16(p *engine.Prog, r *engine.Report) {
 			}
 			r.Check(ok, "R16.4-one-implementation", fmt.Sprintf("ReloadFromRaw call#%d in %s", nCall, engine.FuncName(fn)), "call at "+p.Rel(ci.Pos()), "the raw configuration bytes are handed over unmodified (file content, or the pushed RawContent)", short(src))
 		}
+	}
+}
+
+// checkReportedHash is R16.5: the hash a sidecar reports is its configuration manager's current hash,
+// read when the report is made, and the coordinator compares it with its own manager's current hash.
+func checkReportedHash(p *engine.Prog, r *engine.Report) {
+	fRtHash := p.Field(pkgShard, "RuntimeInfo", "ConfigHash")
+	fHash := p.Field(pkgProm, "ConfigInfo", "ConfigHash")
+	mInfo := p.Method(pkgProm, "ConfigManager", "ConfigInfo")
+	fCur := p.Field(pkgProm, "ConfigManager", "currentConfig")
+	if len(p.Problems) > 0 {
+		return
+	}
+	n := 0
+	for _, fn := range p.Funcs {
+		if !engine.InPkg(fn, pkgSide) {
+			continue
+		}
+		fi := p.Info(fn)
+		for _, in := range allInstrs(fn) {
+			st, ok := in.(*ssa.Store)
+			if !ok {
+				continue
+			}
+			fa, ok := st.Addr.(*ssa.FieldAddr)
+			if !ok || engine.FieldOf(fa) != fRtHash {
+				continue
+			}
+			n++
+			why := ""
+			base, ok := loadOfField(st.Val, fHash)
+			if !ok {
+				why = "the reported value is " + short(fi.T(st.Val).S) + ", not ConfigInfo().ConfigHash of the configuration manager"
+			} else if call, ok := base.(*ssa.Call); !ok || engine.CalleeObj(call.Common()) != mInfo {
+				why = "the reported hash is read from " + short(fi.T(base).S) + ", not from a ConfigInfo() call made for this report"
+			}
+			r.Check(why == "", "R16.5-reported-hash", fmt.Sprintf("reported hash#%d in %s", n, engine.FuncName(fn)), "store at "+p.Rel(st.Pos()),
+				"RuntimeInfo.ConfigHash = the configuration manager's ConfigInfo().ConfigHash, read when the report is made (whatever way the configuration was loaded)", why)
+		}
+	}
+	if n == 0 {
+		r.Add("R16.5-reported-hash", "reported hash", pkgSide, "a store to RuntimeInfo.ConfigHash in the sidecar", "none found", engine.Undecided)
+	}
+	// ConfigInfo() returns the manager's current configuration
+	if f := p.SSAFunc(mInfo); f != nil {
+		fi := p.Info(f)
+		ok := true
+		var have []string
+		for _, ret := range returnsOf(f) {
+			v := returnedValue(ret, 0)
+			if base, isLoad := loadOfField(v, fCur); !isLoad || base != ssa.Value(f.Params[0]) {
+				ok = false
+				have = append(have, "returns "+short(fi.T(v).S))
+			}
+		}
+		r.Check(ok, "R16.5-reported-hash", "ConfigInfo returns the current configuration", engine.FuncName(f), "every return is the manager's currentConfig field", strings.Join(have, "; "))
 	}
 }
 
